@@ -225,6 +225,17 @@ def r3_mismatch(repo):
                 [(src(t_), p_) for t_, p_ in flatten_guard(e._parent.test, e in e._parent.body)] == [("t_arg1 == t_arg2", False)]
         obs.append(Ob("C10-R3", "mismatch:" + name, _w(f, e), ok,
                       "a structural mismatch (%s) must `return {}`" % name))
+    # skipping a pair of arguments (`continue`) asserts that nothing needs to be unified or compared for it: allowed only
+    # when the two arguments were found equal
+    conts = [n for n in iter_own_nodes(lp) if isinstance(n, ast.Continue) and
+             [a for a in ancestors(n) if isinstance(a, (ast.For, ast.While))][:1] == [lp]]
+    for i, cn in enumerate(conts):
+        gs = _g(cn, stop=lp)
+        okc = ("t_arg1 == t_arg2", True) in gs or ("t_arg2 == t_arg1", True) in gs or \
+            any(pol and s_.startswith("_update_type_var_map(") for s_, pol in gs)      # ... or the pair was just bound
+        obs.append(Ob("C10-R3", "continue#%d:only-for-equal-arguments" % i, _w(f, cn), okc,
+                      "an argument pair may be skipped only after `t_arg1 != t_arg2` was excluded or the pattern variable "
+                      "was bound through the writer; guards %s" % gs))
     # the ground comparison happens for every argument without type variables
     # every path through one loop iteration reaches an update call, an empty return, or a ground-equality test
     return obs
